@@ -310,6 +310,7 @@ _EXTRA = {
     'R32': (['C14'], 'R32: a value that is cast to Variable was tested to be one.'),
     'R90': (['C14'], 'R90: branch targets are taken apart only under the is_atomic test.'),
     'R73': (['C19'], 'R73: optional context (a flag, a token) that a function holds under the same name as its callee\'s parameter is passed on.'),
+    'R108': (['C03', 'C05', 'C12', 'C20'], 'R108: in configure no path leads from the _find_next call back to the loop head without the list of passed-over data having been used.'),
     'R87': (['C20', 'C17'], 'R87: the option tables main() builds once are only read by process/_process_in/_process_out (alias-following over what is unpacked from them).'),
     'R86': (['C01', 'C07', 'C08', 'C09', 'C19', 'C20'], 'R86: an argument annotated as Iterable / Iterator / file is walked at most once on every path (a second walk of a file or generator finds nothing).'),
 }
